@@ -133,6 +133,12 @@ SCHEDULES = [
      [],
      ["t.park A put.before_publish 1", "t.spawn A put 61 3131", "t.wait A 5000", "t.spawn B del 61", "sleep 150", "t.release A", "t.join A 5000", "t.join B 5000", "get 61"],
      {2: ["parked put.before_publish"], 6: ["done ok"], 7: ["done true"], 8: ["nil"]}),
+    ("merge preempted after copying and hinting eight small entries into one output file: readers of already moved keys are served while the merge is in flight",
+     "cfg mfs=1000000 pool=8 frag=0/1 dead=0 small=1099511627776",
+     [f"put 6b{i:02x} {0x30 + i:02x}*20" for i in range(8)],
+     ["t.park M merge.hinted 8", "t.spawn M merge", "t.wait M 5000"] + [f"t.spawn R{i} get 6b{i:02x}" for i in range(8)] + ["sleep 200", "t.release M", "t.join M 5000"]
+     + [f"t.join R{i} 5000" for i in range(8)] + ["idle"],
+     dict([(2, ["parked merge.hinted"]), (13, ["done ok"])] + [(14 + i, [f"done {0x30 + i:02x}*"]) for i in range(8)] + [(22, ["idle 8"])])),
     ("rollover between two writes: reader holds a mapping of the old active file, new entries land in the next file",
      "cfg mfs=60 pool=1",
      ["put 61 31*40"],
